@@ -636,52 +636,29 @@ func (o *FilterOptimizer) intersectionRange(l, r *ScanType) *ScanType {
 		rstart, rend = rend, rstart
 	}
 
-	// Same range just return left
-	if bytes.Compare(lstart, rstart) == 0 && bytes.Compare(lend, rend) == 0 {
-		return l
-	}
-
-	var (
-		nstart []byte = nil
-		nend   []byte = nil
-	)
-
-	// | ^LS,RS | LE,RE$ |
-	// just use full scan instead
-	if lstart == nil && rstart == nil && lend == nil && rend == nil {
-		return &ScanType{FULL, nil}
-	}
-
-	if inRange(lstart, lend, rstart, false) && !inRange(lstart, lend, rend, true) {
-		// | LS | RS | LE | RE |
+	// The intersection goes from the greater start to the smaller end,
+	// a nil start or end means unbounded
+	nstart, nend := lstart, lend
+	if nstart == nil || (rstart != nil && bytes.Compare(rstart, nstart) > 0) {
 		nstart = rstart
-		nend = lend
-	} else if inRange(rstart, rend, lstart, false) && !inRange(rstart, rend, lend, true) {
-		// | RS | LS | RE | LE |
-		nstart = lstart
+	}
+	if nend == nil || (rend != nil && bytes.Compare(rend, nend) < 0) {
 		nend = rend
-	} else if inRange(lstart, lend, rstart, false) && inRange(lstart, lend, rend, true) {
-		// | LS | RS | RE | LE |
-		nstart = rstart
-		nend = rend
-	} else if inRange(rstart, rend, lstart, false) && inRange(rstart, rend, lend, true) {
-		// | RS | LS | LE | RE |
-		nstart = lstart
-		nend = lend
-	} else if !inRange(lstart, lend, rstart, false) && !inRange(lstart, lend, rend, true) {
-		// | LS | LE | RS | RE |
-		// | RS | RE | LS | LE |
-		// No result just return EMPTY
-		return &ScanType{EMPTY, nil}
 	}
 
 	if nstart == nil && nend == nil {
 		return &ScanType{FULL, nil}
 	}
 
-	// start == end just use MGET
-	if bytes.Compare(nstart, nend) == 0 {
-		return &ScanType{MGET, [][]byte{nstart}}
+	if nstart != nil && nend != nil {
+		if bytes.Compare(nstart, nend) > 0 {
+			// No result just return EMPTY
+			return &ScanType{EMPTY, nil}
+		}
+		// start == end just use MGET
+		if bytes.Compare(nstart, nend) == 0 {
+			return &ScanType{MGET, [][]byte{nstart}}
+		}
 	}
 
 	return &ScanType{RANGE, [][]byte{nstart, nend}}
